@@ -109,7 +109,8 @@ def judge(w, base: Dict[str, Any], hb: Dict[str, Any], e: Dict[str, Any], he: Di
         #      the renamed component's own hashes differ from those it had in E.
         if eid != "I2-name-ending-in-digit":
             return None
-        new, old = e.get("renamed_to"), e.get("renamed_from")
+        new = e.get("renamed_to")
+        old = e.get("renamed_from") or str(e.get("detail", "")).split(" -> ")[0]
         if not new or not re.search(r"[0-9]$", new) or new not in he or old not in hb:
             return None
         stage = next(c_["stage"] for c_ in e["spec"]["comps"] if c_["name"] == new)
